@@ -24,9 +24,10 @@ type Op struct {
 
 // Action is an action or a guard.
 type Action struct {
-	Ops    []Op   `json:"ops"`
-	Native bool   `json:"native,omitempty"`
-	Stub   string `json:"stub,omitempty"` // native only: "", "nil-err", "partial-err", "nil-bs"
+	Ops     []Op   `json:"ops"`
+	Native  bool   `json:"native,omitempty"`
+	InPlace bool   `json:"in_place,omitempty"` // native guards only: works directly on the bindings it is handed
+	Stub    string `json:"stub,omitempty"`     // native only: "", "nil-err", "partial-err", "nil-bs"
 }
 
 // Branch of a node.
@@ -177,6 +178,14 @@ func (a *Action) Exec(bs map[string]interface{}) ExecResult {
 			// (guards) reject unless the binding has the given scalar value
 			if v, ok := w[op.K]; !ok || !scalarEq(v, op.V) {
 				return ExecResult{Outcome: "null", Emitted: out}
+			}
+		case "randstr":
+			w["r"] = "string"
+		case "matchstore":
+			if op.K2 == "first" {
+				w[op.K] = map[string]interface{}{"?x": CopyVal(op.V)}
+			} else {
+				w[op.K] = []interface{}{map[string]interface{}{"?x": CopyVal(op.V)}}
 			}
 		case "del":
 			delete(w, op.K)
